@@ -17,6 +17,7 @@ import (
 	"time"
 
 	"github.com/notaryproject/notation-core-go/revocation"
+	rocsp "github.com/notaryproject/notation-core-go/revocation/ocsp"
 	"github.com/notaryproject/notation-core-go/revocation/purpose"
 	"github.com/notaryproject/notation-core-go/signature"
 	nx509 "github.com/notaryproject/notation-core-go/x509"
@@ -573,6 +574,24 @@ func execute(r *core.Run, c *Case, routes bool) {
 		return
 	}
 	r.Count("revocation-route", 1)
+	if len(c.Items)%2 == 0 {
+		// the OCSP-only entry point, asked for either purpose: the purpose it is
+		// given is the purpose it checks (for the other purpose the chain is
+		// judged by the other predicate)
+		for _, p := range []purpose.Purpose{purpose.CodeSigning, purpose.Timestamping} {
+			wantP := refmodel.CodeSigningChainOK(certs, nil)
+			if p == purpose.Timestamping {
+				wantP = refmodel.TimestampingChainOK(certs)
+			}
+			ors, oerr := rocsp.CheckStatus(rocsp.Options{CertChain: certs, CertChainPurpose: p, HTTPClient: sims.DeadClient()})
+			r.Eval(1)
+			if wantP != (oerr == nil) || (oerr != nil && (!sims.IsInvalidChain(oerr) || ors != nil)) {
+				r.Violation(fmt.Sprintf("ocsp-entry-point:purpose-%d:%s", p, sigOf(c, oerr == nil, wantP)), fmt.Sprintf("%s: ocsp.CheckStatus with purpose %d returned err=%v, the reference predicate for that purpose says %v", c.desc(), p, oerr, wantP), c)
+				return
+			}
+		}
+		r.Count("ocsp-entry-point-both-purposes", 1)
+	}
 	if rv, ok := v.(revocation.Revocation); ok && len(c.Items)%3 != 1 {
 		// the same validator through its deprecated method: the purpose it was
 		// configured for is the purpose it checks
